@@ -172,7 +172,7 @@ static inline bool MUL_LEMMAS(I s, I x, i128 gx, i128 gy){
 #define CORNERS_MIN x_min(x_min(x_mul(LB(self), LB(x)), x_mul(LB(self), UB(x))), x_min(x_mul(UB(self), LB(x)), x_mul(UB(self), UB(x))))
 #define CORNERS_MAX x_max(x_max(x_mul(LB(self), LB(x)), x_mul(LB(self), UB(x))), x_max(x_mul(UB(self), LB(x)), x_mul(UB(self), UB(x))))
 //@check id=i_mul fn=_ZNK4ikos8intervalINS_8z_numberEEmlERKS2_ props=C08 timeout=900 first_timeout=600 backends=minisat,kissat cost=9
-//@check id=i_mul_sound fn=_ZNK4ikos8intervalINS_8z_numberEEmlERKS2_ tag=i_mul harness=h_i_mul props=C08 timeout=900 first_timeout=600 backends=minisat,kissat cost=9
+//@check id=i_mul_sound fn=_ZNK4ikos8intervalINS_8z_numberEEmlERKS2_ tag=i_mul harness=h_i_mul props=C08 vary=MCASE:0-8 timeout=900 first_timeout=600 backends=minisat,kissat cost=9
 #ifdef CHECK_i_mul_sound
 #define MUL_EXACT 1
 #define MUL_SOUND ((i_has(*self, g_x) && i_has(*x, g_y) && MUL_LEMMAS(*self, *x, g_x, g_y)) ==> i_has(*ret, M(g_x, g_y)))
@@ -180,7 +180,20 @@ static inline bool MUL_LEMMAS(I s, I x, i128 gx, i128 gy){
 #define MUL_EXACT (ANYBOT ? i_bot(*ret) : i_is(*ret, CORNERS_MIN, CORNERS_MAX))
 #define MUL_SOUND 1
 #endif
-IBIN(i_mul, _ZNK4ikos8intervalINS_8z_numberEEmlERKS2_, ZLIM, MUL_EXACT, MUL_SOUND)
+/* sign class of an interval: 0 bottom or entirely negative, 1 entirely positive, 2 contains zero */
+static inline int sgncls(I i){ return i_bot(i) ? 0 : b_le(i.f1, mkfin(-1)) ? 0 : b_le(mkfin(1), i.f0) ? 1 : 2; }
+void _ZNK4ikos8intervalINS_8z_numberEEmlERKS2_(I *ret, I *self, I *x)
+__CPROVER_requires(FRESH(i_mul, ret, sizeof(I)) && IFRESH2(i_mul) && i_ok(*self) && i_ok(*x) && TOP(i_mul, GRANGE))
+__CPROVER_assigns(*ret)
+__CPROVER_ensures(i_okz(*ret, ZLIM))
+__CPROVER_ensures(MUL_EXACT)
+__CPROVER_ensures(TOP(i_mul, MUL_SOUND));
+#ifndef MCASE
+#define MCASE (3 * sgncls(a) + sgncls(b))
+#endif
+/* the soundness run is split into the 9 sign-class combinations of the operands (a total case split: the harness
+ * fixes the class pair, the vary list enumerates all of them) */
+void h_i_mul(void){ IN(I, a); IN(I, b); HGHOSTS; I r; __CPROVER_assume(3 * sgncls(a) + sgncls(b) == MCASE); _ZNK4ikos8intervalINS_8z_numberEEmlERKS2_(&r, &a, &b); REACH; }
 
 /* ---------------------------------------------------------------- bound: remaining operations */
 /* division, divisor != 0 (a zero divisor is a CRAB_ERROR); finite / infinite = 0 by convention */
@@ -279,10 +292,20 @@ static inline bool DIV_LEMMAS(I s, I x, i128 gx, i128 gy){
   return ok; }
 /* operator/ is recursive (zero-crossing operands are split); the recursive calls are assumed to satisfy this same
  * contract (--enforce-contract-rec); termination of the recursion is not proved */
-//@check id=i_div fn=_ZNK4ikos8intervalINS_8z_numberEEdvERKS2_ props=C08 rec=1 timeout=1500 first_timeout=700 backends=minisat,cvc5 cost=9 unwind=6
-IBIN(i_div, _ZNK4ikos8intervalINS_8z_numberEEdvERKS2_, ZB,
-     ANYBOT ==> i_bot(*ret),
-     (i_has(*self, g_x) && i_has(*x, g_y) && g_y != 0 && DIV_LEMMAS(*self, *x, g_x, g_y)) ==> i_has(*ret, D(g_x, g_y)))
+//@check id=i_div fn=_ZNK4ikos8intervalINS_8z_numberEEdvERKS2_ props=C08 rec=1 vary=DCASE:0-17 timeout=1500 first_timeout=700 backends=minisat,cvc5 cost=9 unwind=6
+void _ZNK4ikos8intervalINS_8z_numberEEdvERKS2_(I *ret, I *self, I *x)
+__CPROVER_requires(FRESH(i_div, ret, sizeof(I)) && IFRESH2(i_div) && i_ok(*self) && i_ok(*x) && TOP(i_div, GRANGE))
+__CPROVER_assigns(*ret)
+__CPROVER_ensures(i_okz(*ret, ZB))
+__CPROVER_ensures(ANYBOT ==> i_bot(*ret))
+__CPROVER_ensures(TOP(i_div, (i_has(*self, g_x) && i_has(*x, g_y) && g_y != 0 && DIV_LEMMAS(*self, *x, g_x, g_y)) ==> i_has(*ret, D(g_x, g_y))));
+/* total case split of the top-level call (the contract itself stays general, recursive calls use it unrestricted):
+ * 9 sign-class combinations, the divisor class further split into singleton / non-singleton */
+#ifndef DCASE
+#define DCASE 0
+#endif
+static inline int divcase(I a, I b){ return 2 * (3 * sgncls(a) + sgncls(b)) + ((!i_bot(b) && b_eq(b.f0, b.f1)) ? 1 : 0); }
+void h_i_div(void){ IN(I, a); IN(I, b); HGHOSTS; I r; __CPROVER_assume(divcase(a, b) == DCASE); _ZNK4ikos8intervalINS_8z_numberEEdvERKS2_(&r, &a, &b); REACH; }
 /* instance of schema R1 of lemmas/zm_sign_rules.smt2 at the ghost points */
 static inline i128 zabs_(i128 a){ return a < 0 ? -a : a; }
 static inline bool REM_RULES(i128 a, i128 b){ i128 r = ZM_rem_pure(a, b); return b == 0 || (zabs_(r) < zabs_(b) && (r == 0 || ((r > 0) == (a > 0)))); }
